@@ -132,6 +132,7 @@ func runBatch(t Target, prop string, seed uint64, from, to int, out string, maxS
 			break
 		}
 		src := choice.New(choice.Mix(seed, uint64(i)))
+		CaseDigest = ""
 		v := check(t, src, bo.Stats)
 		bo.Done = i + 1
 		if evlog {
@@ -139,7 +140,7 @@ func runBatch(t Target, prop string, seed uint64, from, to int, out string, maxS
 			if v != nil {
 				d = v.Sig
 			}
-			bo.EventLog = append(bo.EventLog, fmt.Sprintf("%d %s %s", i, short(shaStr(fmt.Sprint(src.Values()))), d))
+			bo.EventLog = append(bo.EventLog, fmt.Sprintf("%d %s %s %s", i, short(shaStr(fmt.Sprint(src.Values()))), short(CaseDigest), d))
 		}
 		if v == nil {
 			continue
